@@ -723,9 +723,9 @@ func gen4(run *vlib.Run, r *vlib.Rand, tier string) {
 	// (a block of n unrelated glyph ids makes AppendEdges quadratic in n: every
 	// code of the block is a vertex whose explicit-value proposal scans the rest;
 	// the 64 KiB block costs ~10 s per Encode and is left to the thorough tier)
-	bigs := []big{{"isolated", 8187}, {"values", 2500}, {"identity", 65536}}
+	bigs := []big{{"isolated", 8187}, {"isolated", 8190}, {"values", 2500}, {"identity", 65536}}
 	if tier == "thorough" {
-		bigs = append(bigs, big{"isolated", 8100}, big{"isolated", 8185}, big{"isolated", 8190}, big{"runs", 60000},
+		bigs = append(bigs, big{"isolated", 8100}, big{"isolated", 8185}, big{"runs", 60000},
 			big{"isolated", 8186}, big{"isolated", 8188}, big{"isolated", 8189}, big{"isolated", 9000},
 			big{"values", 32755}, big{"values", 32765}, big{"mixed", 20000}, big{"mixed", 30000}, big{"runs", 65000})
 	}
